@@ -166,6 +166,10 @@ class SNum:
     def __hash__(self):
         return id(self)
 
+    def __bool__(self):
+        # truthiness of a number (`if not max_patience:`): forks on != 0 like any other condition
+        return EX.choose(self.e != 0)
+
     def __add__(self, o):
         return SNum(self.e + lift(o))
 
